@@ -4,10 +4,16 @@ Helper lemmas for C16 (Boudot range proof) and C19 (responses mask their secrets
 * bit-length facts (`bitLen_bounds`, `lt_two_pow_bitLen`), the SHA-256 output length and the range
   of `hashInts` (`sha256_length`, `hashInts_lt`), proved from the definitions;
 * floor-division facts behind C19 (`mask_floor`, `mask_margin`, `Masked`), list helpers
-  (`drawBitsList_ok`, `responses_ok`, `drawR5_ok`);
+  (`drawBitsList_ok`, `responses_ok`, `drawR5_ok`, `s5_mapM_ok`);
 * the tolerance arithmetic of Boudot's proof (`tolerance_lt`, `scaled_in_range_iff`);
-* `powMod` / `pw` / `divm` as congruences modulo `n` for units (`PowSpec`), which is what the
-  completeness proofs of the sub-protocols use.
+* `Rep n y u`: the integer `y` represents the unit `u` of `ℤ/n`; `powMod`/`pw`/`tmod`/`divm` on
+  representatives (`powMod_rep`, `pw_rep`, `pw_inv`, `tmod_rep`, `divm_rep`, `Rep.unique`);
+  identities in the commutative group `(ℤ/n)ˣ` are proved by `module` in `Additive (ℤ/n)ˣ`;
+* completeness of Algorithms 1–8 and of `prove`/`verify` (`same_secret_complete`, `square_complete`,
+  `large_interval_complete`, `tolerance_complete`, `range_complete`), the honest prover in and out
+  of range (`prover_in_range`, `honest_out_of_range_panics`, `rangeProve_ne_panic`);
+* the verifier read backwards (`divm_spec`, `tolerance_accept_inv`, `range_accept_inv`), and the
+  commitments of `proof_gen` / `generate_proof` as representatives (`commitWithCpk_single`, …).
 -/
 import ZkProofs.Lemmas.ClMonad
 import ZkModel.Generated.ClConstants
@@ -425,6 +431,8 @@ theorem powMod_rep (hA : ArithOK) {n g : Int} {u} (hn : 1 < n) (hg : Rep n g u) 
       rw [this]
       exact (hgi.pow _).emod hn
 
+/-! ### `pw`, `tmod`, `divm` on representatives -/
+
 theorem invMod_rep (hA : ArithOK) {n g : Int} {u} (hn : 1 < n) (hg : Rep n g u) :
     ∃ gi, invMod g n = some gi ∧ Rep n gi u⁻¹ ∧ 0 ≤ gi ∧ gi < n := by
   cases hi : invMod g n with
@@ -469,6 +477,8 @@ theorem divm_rep (hA : ArithOK) {n a b : Int} {u v} (hn : 1 < n) (ha : Rep n a u
   rw [mul_comm v⁻¹ u] at hr
   refine ⟨tmod (bi * a) n, ?_, hr⟩
   unfold divm; rw [h1]; rfl
+
+/-! ### completeness of the sub-protocols (Algorithms 1–6) -/
 
 theorem grp_ss {G} [CommGroup G] (u v : G) (ω μ c x r : ℤ) :
     u ^ (ω + c * x) * v ^ (μ + c * r) * (u ^ x * v ^ r) ^ (-c) = u ^ ω * v ^ μ := by
@@ -604,6 +614,8 @@ theorem large_interval_complete (hA : ArithOK) {n : Int} (hn : 1 < n) {g h E x r
   obtain ⟨k, _, -, h⟩ := bind_ok_inv h
   exact large_loop_complete hA hn hg hh hE _ h tq
 
+/-! ### Algorithms 7/8 and the whole proof -/
+
 theorem sqrtM_ok_iff {x y : Int} {t t' : List Draw} :
     sqrtM x t = .ok (y, t') ↔ 0 ≤ x ∧ y = Int.ofNat (isqrt x.toNat) ∧ t' = t := by
   unfold sqrtM
@@ -661,7 +673,6 @@ theorem grp_divB {G} [CommGroup G] (u v : G) (x r bb y rb1 : ℤ) :
     intro a b; module
   exact this (Additive.ofMul u) (Additive.ofMul v)
 
-set_option maxHeartbeats 400000 in
 /-- **Algorithm 7/8 completeness.** -/
 theorem tolerance_complete (hA : ArithOK) {n : Int} (hn : 1 < n) {g h E x r a b : Int}
     {u v : (ZMod n.toNat)ˣ} (hg : Rep n g u) (hh : Rep n h v) (hE : Rep n E (u ^ x * v ^ r))
@@ -776,6 +787,8 @@ theorem range_complete (hA : ArithOK) (cs : Suite) {n : Int} (hn : 1 < n) {g h x
   simp only [beq_self_eq_true, if_true]
   exact tolerance_complete hA hn hg hh rE' E'0 htol tq
 
+/-! ### the honest prover outside `[a, b]` -/
+
 /-- If the honest prover returns a proof, the value was in `[a, b]` (the square roots of
 `x' − aa` and `bb − x'` are taken of non-negative numbers only). -/
 theorem prover_in_range (hA : ArithOK) (cs : Suite) {n g h x a b : Int} {c : Commitment}
@@ -847,6 +860,8 @@ theorem honest_out_of_range_panics (hA : ArithOK) (cs : Suite) {n g h x a b : In
     have : ¬ (2 ^ tolT cs.t cs.l a b * x ≤ 2 ^ tolT cs.t cs.l a b * b +
         tolTheta cs.t cs.l (tolT cs.t cs.l a b) a b) := fun hc => by have := i2.mp hc; omega
     linarith
+
+/-! ### reading the verifier backwards -/
 
 theorem tmod_modEq (a m : Int) : tmod a m ≡ a [ZMOD m] := by
   unfold tmod
@@ -1057,5 +1072,192 @@ theorem Rep.of_emod_eq {n a b : Int} {u} (hn : 1 < n) (hb : Rep n b u) (h : a % 
 theorem zpow_toNat {G} [Group G] (u : G) {x : Int} (hx : 0 ≤ x) : u ^ x = u ^ x.toNat := by
   conv_lhs => rw [← Int.toNat_of_nonneg hx]
   exact zpow_natCast u _
+
+/-! ### the commitments the library range-proves -/
+
+/-- A single-attribute commitment made by `commit_with_commitment_pk` (the way `proof_gen` makes the
+commitments it range-proves) represents `g_i^m · h^r`. -/
+theorem commitWithCpk_single (hA : ArithOK) {cs : Suite} {cpk : CommitmentPK} (hn : 1 < cpk.N)
+    {msgs : List Int} {unrevealed : Option (List Nat)} {i : Nat} {m gi : Int}
+    {u v : (ZMod cpk.N.toNat)ˣ} (hix : unrevealed.getD (List.range msgs.length) = [i])
+    (hgi : cpk.gBases[i]? = some gi) (hm : msgs[i]? = some m)
+    (hg : Rep cpk.N gi u) (hh : Rep cpk.N cpk.h v) {c : Commitment} {tp tp' : List Draw}
+    (h : commitWithCpk cs msgs cpk unrevealed tp = .ok (c, tp')) :
+    Rep cpk.N c.value (u ^ m * v ^ c.randomness) ∧ 0 ≤ c.randomness ∧
+      bitLen c.randomness = cs.ln := by
+  unfold commitWithCpk at h
+  rw [hix] at h
+  obtain ⟨r, t1, hr, H1⟩ := bind_ok_inv h
+  obtain ⟨cx, t2, hcx, H2⟩ := bind_ok_inv H1
+  obtain ⟨hr', t3, hhr, H3⟩ := bind_ok_inv H2
+  obtain ⟨rfl, -⟩ := pure_ok_iff.mp H3
+  obtain ⟨_, _, _, _, r0, rb⟩ := randomBits_ok_inv hr
+  unfold prodPowIdx at hcx
+  obtain ⟨a, t4, ha, K1⟩ := bind_ok_inv hcx
+  obtain ⟨m', t5, hm', K2⟩ := bind_ok_inv K1
+  obtain ⟨x, t6, hx, K3⟩ := bind_ok_inv K2
+  unfold prodPowIdx at K3
+  obtain ⟨rfl, -⟩ := pure_ok_iff.mp K3
+  obtain ⟨ha, -⟩ := idx_ok_iff.mp ha
+  obtain ⟨hm', -⟩ := idx_ok_iff.mp hm'
+  rw [hgi] at ha; rw [hm] at hm'
+  obtain rfl := Option.some.inj ha
+  obtain rfl := Option.some.inj hm'
+  obtain ⟨-, rx, x0, -⟩ := pw_inv hA hn hg hx
+  obtain ⟨-, rh, h0, -⟩ := pw_inv hA hn hh hhr
+  rw [one_mul]
+  exact ⟨(tmod_rep hn (rx.mul rh) (mul_nonneg x0 h0)).1, r0, rb⟩
+
+/-- The same for `commit_with_pk` (issuance side: bases `a_i`, `b`). -/
+theorem commitWithPk_single (hA : ArithOK) {cs : Suite} {pk : PublicKey} (hn : 1 < pk.N)
+    {msgs bases : List Int} {unrevealed : Option (List Nat)} {i : Nat} {m ai : Int}
+    {u v : (ZMod pk.N.toNat)ˣ} (hix : unrevealed.getD (List.range msgs.length) = [i])
+    (hai : bases[i]? = some ai) (hm : msgs[i]? = some m)
+    (hg : Rep pk.N ai u) (hh : Rep pk.N pk.b v) {c : Commitment} {tp tp' : List Draw}
+    (h : commitWithPk cs msgs pk bases unrevealed tp = .ok (c, tp')) :
+    Rep pk.N c.value (u ^ m * v ^ c.randomness) ∧ 0 ≤ c.randomness ∧
+      bitLen c.randomness = cs.ln := by
+  unfold commitWithPk at h
+  rw [hix] at h
+  obtain ⟨r, t1, hr, H1⟩ := bind_ok_inv h
+  obtain ⟨cx, t2, hcx, H2⟩ := bind_ok_inv H1
+  obtain ⟨hr', t3, hhr, H3⟩ := bind_ok_inv H2
+  obtain ⟨rfl, -⟩ := pure_ok_iff.mp H3
+  obtain ⟨_, _, _, _, r0, rb⟩ := randomBits_ok_inv hr
+  unfold prodPowIdx at hcx
+  obtain ⟨a, t4, ha, K1⟩ := bind_ok_inv hcx
+  obtain ⟨m', t5, hm', K2⟩ := bind_ok_inv K1
+  obtain ⟨x, t6, hx, K3⟩ := bind_ok_inv K2
+  unfold prodPowIdx at K3
+  obtain ⟨rfl, -⟩ := pure_ok_iff.mp K3
+  obtain ⟨ha, -⟩ := idx_ok_iff.mp ha
+  obtain ⟨hm', -⟩ := idx_ok_iff.mp hm'
+  rw [hai] at ha; rw [hm] at hm'
+  obtain rfl := Option.some.inj ha
+  obtain rfl := Option.some.inj hm'
+  obtain ⟨-, rx, x0, -⟩ := pw_inv hA hn hg hx
+  obtain ⟨-, rh, h0, -⟩ := pw_inv hA hn hh hhr
+  rw [one_mul]
+  exact ⟨(tmod_rep hn (rx.mul rh) (mul_nonneg x0 h0)).1, r0, rb⟩
+
+/-! ### the honest prover inside `[a, b]` never panics -/
+
+theorem bind_ne_panic {α β} {x : M α} {f : α → M β} {t : List Draw} (hx : x t ≠ .panic)
+    (hf : ∀ a t', x t = .ok (a, t') → f a t' ≠ .panic) : (x >>= f) t ≠ .panic := by
+  rw [bind_apply]
+  cases h : x t with
+  | ok p => obtain ⟨a, t'⟩ := p; exact hf a t' h
+  | panic => exact absurd h hx
+  | tape m => simp
+
+theorem randInt_ne_panic (a b : Int) (t : List Draw) : randInt a b t ≠ .panic := by
+  unfold randInt
+  cases t with
+  | nil => simp
+  | cons d rest => dsimp only; split <;> [simp; (split <;> simp)]
+
+theorem pw_ne_panic (hA : ArithOK) {n g : Int} {u} (hn : 1 < n) (hg : Rep n g u) (e : Int)
+    (t : List Draw) : pw g e n t ≠ .panic := by
+  obtain ⟨y, h, -⟩ := pw_rep hA hn hg e t
+  rw [h]; simp
+
+theorem ite_ne_panic {α} {c : Prop} [Decidable c] {x y : M α} {t : List Draw} (hx : x t ≠ .panic)
+    (hy : y t ≠ .panic) : (if c then x else y) t ≠ .panic := by
+  by_cases h : c
+  · rw [if_pos h]; exact hx
+  · rw [if_neg h]; exact hy
+
+theorem pure_ne_panic {α} (a : α) (t : List Draw) : (pure a : M α) t ≠ .panic := by simp
+
+theorem proofSameSecret_ne_panic (hA : ArithOK) {n : Int} (hn : 1 < n) {g1 h1 g2 h2 : Int}
+    {u1 v1 u2 v2 : (ZMod n.toNat)ˣ} (hg1 : Rep n g1 u1) (hh1 : Rep n h1 v1) (hg2 : Rep n g2 u2)
+    (hh2 : Rep n h2 v2) (x r1 r2 : Int) (l t : Nat) (b : Int) (s1 s2 : Nat) (tp : List Draw) :
+    proofSameSecret x r1 r2 g1 h1 g2 h2 l t b s1 s2 n tp ≠ .panic := by
+  unfold proofSameSecret
+  refine bind_ne_panic (randInt_ne_panic _ _ _) fun ω _ _ => ?_
+  refine bind_ne_panic (randInt_ne_panic _ _ _) fun μ1 _ _ => ?_
+  refine bind_ne_panic (randInt_ne_panic _ _ _) fun μ2 _ _ => ?_
+  refine bind_ne_panic (pw_ne_panic hA hn hg1 _ _) fun _ _ _ => ?_
+  refine bind_ne_panic (pw_ne_panic hA hn hh1 _ _) fun _ _ _ => ?_
+  refine bind_ne_panic (pw_ne_panic hA hn hg2 _ _) fun _ _ _ => ?_
+  refine bind_ne_panic (pw_ne_panic hA hn hh2 _ _) fun _ _ _ => ?_
+  exact pure_ne_panic _ _
+
+theorem proofOfSquare_ne_panic (hA : ArithOK) {n : Int} (hn : 1 < n) {g h : Int}
+    {u v : (ZMod n.toNat)ˣ} (hg : Rep n g u) (hh : Rep n h v) (x r1 E : Int) (l t : Nat) (b : Int)
+    (s s1 s2 : Nat) (tp : List Draw) : proofOfSquare x r1 g h E l t b s s1 s2 n tp ≠ .panic := by
+  unfold proofOfSquare
+  refine bind_ne_panic (randInt_ne_panic _ _ _) fun r2 _ _ => ?_
+  refine bind_ne_panic (pw_ne_panic hA hn hg _ _) fun a t1 ha => ?_
+  refine bind_ne_panic (pw_ne_panic hA hn hh _ _) fun b' t2 hb => ?_
+  obtain ⟨-, ra, a0, -⟩ := pw_inv hA hn hg ha
+  obtain ⟨-, rb, b0, -⟩ := pw_inv hA hn hh hb
+  obtain ⟨rF, -⟩ := tmod_rep hn (ra.mul rb) (mul_nonneg a0 b0)
+  refine bind_ne_panic (proofSameSecret_ne_panic hA hn hg hh rF hh _ _ _ _ _ _ _ _ _) fun _ _ _ => ?_
+  exact pure_ne_panic _ _
+
+theorem proofLargeLoop_ne_panic (hA : ArithOK) {n : Int} (hn : 1 < n) {g h : Int}
+    {u v : (ZMod n.toNat)ˣ} (hg : Rep n g u) (hh : Rep n h v) (x r : Int) (t l : Nat) (b : Int)
+    (s T fuel : Nat) (tp : List Draw) : proofLargeLoop x r g h t l b s n T fuel tp ≠ .panic := by
+  induction fuel generalizing tp with
+  | zero => simp [proofLargeLoop]
+  | succ fuel ih =>
+    unfold proofLargeLoop
+    refine bind_ne_panic (randInt_ne_panic _ _ _) fun w _ _ => ?_
+    refine bind_ne_panic (randInt_ne_panic _ _ _) fun ν _ _ => ?_
+    refine bind_ne_panic (pw_ne_panic hA hn hg _ _) fun _ _ _ => ?_
+    refine bind_ne_panic (pw_ne_panic hA hn hh _ _) fun _ _ _ => ?_
+    exact ite_ne_panic (pure_ne_panic _ _) (ih _)
+
+theorem splitLoop_ne_panic (target lo hi : Int) (fuel : Nat) (tp : List Draw) :
+    splitLoop target lo hi fuel tp ≠ .panic := by
+  induction fuel generalizing tp with
+  | zero => simp [splitLoop]
+  | succ fuel ih =>
+    unfold splitLoop
+    refine bind_ne_panic (randInt_ne_panic _ _ _) fun r1 _ _ => ?_
+    exact ite_ne_panic (pure_ne_panic _ _) (ih _)
+
+theorem remaining_ne_panic (t : List Draw) : remaining t ≠ .panic := by simp
+
+/-- For a value inside `[a, b]` (bases units) the honest prover never panics: on every tape it
+returns a proof or reports a tape disagreement. -/
+theorem rangeProve_ne_panic (hA : ArithOK) (cs : Suite) {n : Int} (hn : 1 < n) {g h x a b : Int}
+    {u v : (ZMod n.toNat)ˣ} (hg : Rep n g u) (hh : Rep n h v) (c : Commitment) (hab : a < b)
+    (hax : a ≤ x) (hxb : x ≤ b) (tp : List Draw) : rangeProve cs x c g h n a b tp ≠ .panic := by
+  unfold rangeProve
+  rw [if_neg (by omega)]
+  rw [bind_of_ok (pw_apply (hA.powMod_nonneg c.value _ n (by omega) (by positivity)) tp)]
+  refine bind_ne_panic ?_ fun _ _ _ => pure_ne_panic _ _
+  unfold proofOfToleranceSpecific
+  rw [bind_of_ok (tolBounds_ok_iff.mpr ⟨by omega, rfl, rfl⟩)]
+  dsimp only
+  have hθ := tolerance_lt hA a b cs.t cs.l (by omega)
+  have h0 := tolTheta_nonneg cs.t cs.l (tolT cs.t cs.l a b) a b
+  rw [rangeT_eq]
+  obtain ⟨i1, i2⟩ := scaled_in_range_iff (a := a) (b := b) (x := x) h0 hθ
+  have h1 := i1.mpr hax
+  have h2 := i2.mpr hxb
+  rw [bind_of_ok (sqrtM_ok_iff.mpr ⟨by linarith, rfl, rfl⟩)]
+  rw [bind_of_ok (sqrtM_ok_iff.mpr ⟨by linarith, rfl, rfl⟩)]
+  refine bind_ne_panic (remaining_ne_panic _) fun k _ _ => ?_
+  refine bind_ne_panic (splitLoop_ne_panic _ _ _ _ _) fun pa _ _ => ?_
+  refine bind_ne_panic (splitLoop_ne_panic _ _ _ _ _) fun pb _ _ => ?_
+  refine bind_ne_panic (pw_ne_panic hA hn hg _ _) fun _ _ _ => ?_
+  refine bind_ne_panic (pw_ne_panic hA hn hh _ _) fun _ _ _ => ?_
+  refine bind_ne_panic (pw_ne_panic hA hn hg _ _) fun _ _ _ => ?_
+  refine bind_ne_panic (pw_ne_panic hA hn hh _ _) fun _ _ _ => ?_
+  refine bind_ne_panic (pw_ne_panic hA hn hg _ _) fun _ _ _ => ?_
+  refine bind_ne_panic (pw_ne_panic hA hn hh _ _) fun _ _ _ => ?_
+  refine bind_ne_panic (pw_ne_panic hA hn hg _ _) fun _ _ _ => ?_
+  refine bind_ne_panic (pw_ne_panic hA hn hh _ _) fun _ _ _ => ?_
+  refine bind_ne_panic (proofOfSquare_ne_panic hA hn hg hh _ _ _ _ _ _ _ _ _ _) fun _ _ _ => ?_
+  refine bind_ne_panic (proofOfSquare_ne_panic hA hn hg hh _ _ _ _ _ _ _ _ _ _) fun _ _ _ => ?_
+  refine bind_ne_panic ?_ fun _ _ _ => ?_
+  · unfold proofLargeIntervalSpecific
+    exact bind_ne_panic (remaining_ne_panic _) fun _ _ _ => proofLargeLoop_ne_panic hA hn hg hh _ _ _ _ _ _ _ _ _
+  refine bind_ne_panic ?_ fun _ _ _ => pure_ne_panic _ _
+  unfold proofLargeIntervalSpecific
+  exact bind_ne_panic (remaining_ne_panic _) fun _ _ _ => proofLargeLoop_ne_panic hA hn hg hh _ _ _ _ _ _ _ _ _
 
 end Zk.ClRange
